@@ -783,8 +783,8 @@ fn n_(x: usize) -> Value {
 
 pub struct Gen {
     pub rng: Rng,
-    small_values: Vec<usize>,
-    big_values: Vec<usize>,
+    pub small_values: Vec<usize>,
+    pub big_values: Vec<usize>,
     times: Vec<i64>,
 }
 
@@ -1002,4 +1002,269 @@ pub fn gen_fault(seed: u64, id: usize, max_actions: usize) -> CaseOut {
         }
     }
     r.quiesce_and_finish(seed, id)
+}
+
+// ------------------------------------------------------------------------------------------
+// C03: all sync orders of one scenario
+
+fn permutations(n: usize) -> Vec<Vec<usize>> {
+    fn rec(cur: &mut Vec<usize>, used: &mut Vec<bool>, n: usize, out: &mut Vec<Vec<usize>>) {
+        if cur.len() == n {
+            out.push(cur.clone());
+            return;
+        }
+        for i in 0..n {
+            if !used[i] {
+                used[i] = true;
+                cur.push(i);
+                rec(cur, used, n, out);
+                cur.pop();
+                used[i] = false;
+            }
+        }
+    }
+    let mut out = vec![];
+    rec(&mut vec![], &mut vec![false; n], n, &mut out);
+    out
+}
+
+/// scenario: {"replicas": n, "prefix": [actions], "concurrent": [[ops] per replica]}
+pub fn run_orders(scn: &Value) -> CaseOut {
+    let n = scn["replicas"].as_u64().unwrap() as usize;
+    let prefix: Vec<Action> = scn["prefix"].as_array().unwrap().iter().map(action_of_json).collect();
+    let conc: Vec<Vec<SOp>> = scn["concurrent"]
+        .as_array()
+        .unwrap()
+        .iter()
+        .enumerate()
+        .map(|(i, ops)| match action_of_json(&json!({"commit": i, "ops": ops})) {
+            Action::Commit(_, o) => o,
+            _ => unreachable!(),
+        })
+        .collect();
+    let mut coqs = vec![];
+    let mut finals: Vec<(Vec<usize>, Tasks)> = vec![];
+    let mut problems: Vec<String> = vec![];
+    let mut feats = serde_json::Map::new();
+    let mut base_state = Tasks::new();
+    for perm in permutations(n) {
+        let mut r = Runner::new(n);
+        for a in &prefix {
+            r.perform(a);
+        }
+        // everyone is at the common state now (the prefix ends with syncs of all replicas)
+        base_state = r.w.tasks(0);
+        for (i, ops) in conc.iter().enumerate() {
+            if !ops.is_empty() {
+                r.perform(&Action::Commit(i, ops.clone()));
+            }
+        }
+        for &i in &perm {
+            r.perform(&Action::Sync(i, false, 0));
+        }
+        let out = r.quiesce_and_finish(0, 0);
+        if !out.oracle["ok"].as_bool().unwrap() {
+            problems.push(format!("order {:?}: {}", perm, out.oracle));
+        }
+        // recover the final tasks from the oracle dump (all replicas equal when ok)
+        let mut w2 = Tasks::new();
+        let _ = &mut w2;
+        finals.push((perm.clone(), parse_tasks_dump(out.oracle["replay"].as_str().unwrap_or("{}"))));
+        for (k, v) in out.features.as_object().unwrap() {
+            let e = feats.entry(k.clone()).or_insert(json!(0));
+            *e = json!(e.as_u64().unwrap_or(0) + v.as_u64().unwrap_or(0));
+        }
+        coqs.push(out.coq);
+    }
+    let order_independent = finals.iter().all(|(_, t)| *t == finals[0].1);
+    if !order_independent {
+        problems.push(format!("final state depends on the sync order: {:?}", finals));
+    }
+    // documented winners, for the simple shapes where they can be read off directly
+    let final0 = &finals[0].1;
+    let mut conflicts = 0usize;
+    for u in 0..NUUID {
+        let touched: Vec<&SOp> = conc
+            .iter()
+            .flatten()
+            .filter(|o| match o {
+                SOp::Create(x) | SOp::Delete(x) | SOp::Update(x, _, _, _) => *x == u,
+                SOp::Undo => false,
+            })
+            .collect();
+        if touched.is_empty() {
+            continue;
+        }
+        let any_create = touched.iter().any(|o| matches!(o, SOp::Create(_)));
+        let any_delete = touched.iter().any(|o| matches!(o, SOp::Delete(_)));
+        if any_delete && !any_create {
+            conflicts += 1;
+            if final0.contains_key(&u) {
+                problems.push(format!("task {u} was deleted on one replica but survives: deletion must win over updates"));
+            }
+            continue;
+        }
+        if any_create || any_delete {
+            continue;
+        }
+        // only updates of an existing task: per property the greatest (timestamp, value) of the
+        // replicas' last updates must win, when each replica updates that property at most once
+        for p in 0..3 {
+            let mut per_rep: Vec<Vec<(i64, Option<usize>)>> = vec![];
+            for ops in conc.iter() {
+                per_rep.push(
+                    ops.iter()
+                        .filter_map(|o| match o {
+                            SOp::Update(x, q, v, t) if *x == u && *q == p => Some((*t, *v)),
+                            _ => None,
+                        })
+                        .collect(),
+                );
+            }
+            if per_rep.iter().any(|l| l.len() > 1) || per_rep.iter().all(|l| l.is_empty()) {
+                continue;
+            }
+            let cands: Vec<(i64, Option<usize>)> = per_rep.iter().flatten().cloned().collect();
+            if cands.len() >= 2 {
+                conflicts += 1;
+            }
+            // value indices are order preserving, None is least
+            let win = cands.iter().max_by_key(|(t, v)| (*t, v.map(|x| x as i64).unwrap_or(-1))).unwrap();
+            let got = final0.get(&u).and_then(|tk| tk.get(&p)).copied();
+            if got != win.1 {
+                problems.push(format!(
+                    "task {u} property {p}: concurrent updates {:?}; documented winner {:?}, converged value {:?}",
+                    cands, win.1, got
+                ));
+            }
+        }
+        let _ = &base_state;
+    }
+    feats.insert("scenarios".into(), json!(1));
+    feats.insert("orders".into(), json!(finals.len()));
+    feats.insert("documented_conflicts".into(), json!(conflicts));
+    let ok = problems.is_empty();
+    CaseOut {
+        coq: list(coqs),
+        script: json!({"family": "orders", "exec": "orders-exec", "replicas": n,
+                       "prefix": scn["prefix"], "concurrent": scn["concurrent"]}),
+        oracle: json!({"ok": ok, "order_independent": order_independent, "problems": problems,
+                       "finals": finals.iter().map(|(p, t)| format!("{:?} -> {:?}", p, t)).collect::<Vec<_>>()}),
+        features: Value::Object(feats),
+    }
+}
+
+fn parse_tasks_dump(s: &str) -> Tasks {
+    // parses the Debug form "{0: {0: 5, 1: 1}, 1: {}}" produced by this file
+    let mut out = Tasks::new();
+    let b: Vec<char> = s.chars().collect();
+    let mut i = 0;
+    let mut depth = 0;
+    let mut cur_u: Option<usize> = None;
+    let mut num = String::new();
+    let mut pending_key: Option<usize> = None;
+    while i < b.len() {
+        let c = b[i];
+        match c {
+            '{' => depth += 1,
+            '}' => {
+                if depth == 2 {
+                    if let (Some(u), Some(k)) = (cur_u, pending_key) {
+                        if !num.is_empty() {
+                            out.get_mut(&u).unwrap().insert(k, num.parse().unwrap());
+                        }
+                    }
+                    num.clear();
+                    pending_key = None;
+                    cur_u = None;
+                }
+                depth -= 1;
+            }
+            '0'..='9' => num.push(c),
+            ':' => {
+                let k: usize = num.parse().unwrap();
+                num.clear();
+                if depth == 1 {
+                    cur_u = Some(k);
+                    out.insert(k, BTreeMap::new());
+                } else {
+                    pending_key = Some(k);
+                }
+            }
+            ',' => {
+                if depth == 2 {
+                    if let (Some(u), Some(k)) = (cur_u, pending_key) {
+                        out.get_mut(&u).unwrap().insert(k, num.parse().unwrap());
+                    }
+                    num.clear();
+                    pending_key = None;
+                }
+            }
+            _ => {}
+        }
+        i += 1;
+    }
+    out
+}
+
+pub fn gen_orders(seed: u64, id: usize) -> CaseOut {
+    let mut rng = Rng::new(seed ^ (id as u64).wrapping_mul(0x2545F4914F6CDD1D) ^ 0x03d);
+    let n = if rng.chance(45) { 3 } else { 2 };
+    // common prefix: replica 0 creates some tasks with some properties; everyone syncs
+    let pools = default_pools();
+    let mut g = Gen::new(rng.fork(), &pools);
+    let mut t = Tasks::new();
+    let mut pre_ops = vec![];
+    for u in 0..3 {
+        if rng.chance(75) {
+            pre_ops.push(SOp::Create(u));
+            apply_shadow(&mut t, &SOp::Create(u));
+            if rng.chance(50) {
+                let o = SOp::Update(u, rng.below(3), Some(g.small_values[rng.below(g.small_values.len())]), 1_500_000_000);
+                apply_shadow(&mut t, &o);
+                pre_ops.push(o);
+            }
+        }
+    }
+    let mut prefix = vec![];
+    if !pre_ops.is_empty() {
+        prefix.push(action_json(&Action::Commit(0, pre_ops)));
+    }
+    for i in 0..n {
+        prefix.push(action_json(&Action::Sync(i, false, 0)));
+    }
+    for i in 1..n {
+        let _ = i;
+    }
+    // concurrent batches on the common state, focused on one or two (task, property) cells and
+    // timestamps from {earlier, equal, later}
+    let focus_u = rng.below(3);
+    let focus_p = rng.below(2);
+    let times = [2_000_000_000i64, 2_000_000_000, 2_000_000_123, 1_000_000_000, 3_000_000_000];
+    let mut conc = vec![];
+    for _i in 0..n {
+        let mut cur = t.clone();
+        let mut ops = vec![];
+        let kmax = if rng.chance(70) { 1 } else { 3 };
+        let k = rng.range(1, kmax);
+        for _ in 0..k {
+            let u = if rng.chance(75) { focus_u } else { rng.below(3) };
+            let o = if !cur.contains_key(&u) {
+                SOp::Create(u)
+            } else if rng.chance(12) {
+                SOp::Delete(u)
+            } else {
+                let p = if rng.chance(75) { focus_p } else { rng.below(3) };
+                let v = if rng.chance(10) { None } else { Some(g.small_values[rng.below(3)]) };
+                SOp::Update(u, p, v, times[rng.below(times.len())])
+            };
+            if valid_shadow(&cur, &o) {
+                apply_shadow(&mut cur, &o);
+                ops.push(o);
+            }
+        }
+        let j = action_json(&Action::Commit(0, ops));
+        conc.push(j["ops"].clone());
+    }
+    run_orders(&json!({"replicas": n, "prefix": prefix, "concurrent": conc}))
 }
